@@ -140,7 +140,9 @@ TABLE = {
             "actual shape; rows of different length are rejected, a contradicting shape is rejected; A[k] is the k-th "
             "element in row-major order and out-of-range indices are refused; a stored scalar has its declared kind and "
             "complex values are never cast to int/float; re-insertion of any number of template parameters at any "
-            "positions reproduces the written elements (and the pre-repair positions do not). Oracle: every element, "
+            "positions reproduces the written elements (and the pre-repair positions do not); a redeclaration replaces: after a "
+            "name has been declared twice the tables are those of the second declaration alone, so A[k] afterwards is an "
+            "element of the new array. Oracle: every element, "
             "dtype, shape and index of random declarations against an independent Python evaluation.",
             "Lean 4 proof (list arithmetic, induction over rows) + correspondence", "DESIGN.md 7 (C05)",
             "NumPy's cast of element values (np.array(..., dtype)) is a contract boundary."),
